@@ -20,6 +20,7 @@ FINDINGS = {
     "D13": ("dropping a guard is not a scheduling point and not a DPOR access: try_lock/try_read/try_write never observe the lock held after the last visible operation of the critical section", "src/rt/mutex.rs release_lock, src/rt/rwlock.rs release_*", "M A0 | sp 1 ; lk 0 ; st 1 1 sc ; ul 0 ; jn 1 | ld 1 sc ; tl 0 ; st 1 3 sc ; ul 0"),
     "D14": ("park / unpark are not scheduling points and not DPOR accesses: an unpark that precedes the park (token delivered early, or two unparks coalescing) is never explored", "src/rt/mod.rs park, src/thread.rs unpark", "A0 | sp 1 ; pk ; pk ; jn 1 | up 0 ; up 0"),
     "D19": ("RMW atomicity against loads: two loads by one thread order a concurrent store after the store an RMW read, another pair of loads orders it before the RMW's own store (mo: 20, 10, 21 with 21 = fetch_add of 20); the store-time RMW-atomicity rule (fix 189e88b) and the transitive load rule (fix c0421c4) do not close the modification order under atomicity when LOADS add the edges", "src/rt/atomic.rs apply_load_coherence (the clock of the loaded store is raised without the RMW-atomicity closure)", "A0 | sp 1 ; sp 2 ; sp 3 ; jn 1 ; jn 2 ; jn 3 | st 0 10 rlx | st 0 20 rlx ; rmw 0 add 1 rlx | ld 0 rlx ; ld 0 rlx ; ld 0 rlx"),
+    "D21": ("SeqCst fences are ordered by execution order: an outcome that C11/RC11 allows only when a fence executed LATER precedes an earlier one in the SC order S (possible when the only link between them is a chain of relaxed reads-from through a third thread) is never explored", "src/rt/execution.rs / src/rt/atomic.rs fence_seqcst (operational semantics: S = execution order)", "A0 A0 A0 | sp 1 ; sp 2 ; sp 3 ; jn 1 ; jn 2 ; jn 3 | st 0 1 rlx ; fn sc ; st 1 1 rlx | ld 1 rlx ; st 2 1 rlx | ld 2 rlx ; fn sc ; ld 0 rlx"),
     "D15": ("condvar/notify: a wake-up is delivered as a park token to a thread that is not parked yet (notify before the waiter parks) or consumed by a later park", "src/rt/condvar.rs, src/rt/notify.rs", "see instances"),
 }
 
@@ -38,6 +39,8 @@ def classify(prog, dev):
         return "D14"
     if kind == "missing" and has("tl", "trd", "twr"):
         return "D13"
+    if kind == "missing" and body.count("fn sc") >= 2 and body.count("|") >= 3:
+        return "D21"
     if kind == "forbidden" and has("rmw", "cas", "fu") and has("ld") and has("st"):
         return "D19"
     if has("wt", "n1", "na", "nw", "nn"):
